@@ -174,6 +174,7 @@ def run(pid, tier, seed, t0):
         vlib.log("DRIFT property=%s: %d records differ from the modelled behaviour in components the property does not "
                  "name, e.g. %s" % (pid, len(diff), json.dumps(first[diff[0]])[:600]))
     connector = __import__("x_connector").stage(pid, tier, seed, verdict)   # Connector.tla: handshake asked for the request's protocol
+    upgrade = __import__("x_upgrade").stage(pid, tier, seed, verdict)       # Upgrade.tla: U4, no upgrade machinery on HTTP/2
     code, unlisted = verdict.finish()
 
     samples = [first[1], first[nrec // 3], first[nrec // 2], first[nrec]]
@@ -182,7 +183,7 @@ def run(pid, tier, seed, t0):
     vlib.write_evidence(
         pid, tier, seed, "model_checking",
         {
-            "connector_model": connector,
+            "connector_model": connector, "upgrade_model": upgrade,
             "states": m.distinct, "transitions": m.generated - (n_req + n_sel + n_seq),
             "traces_validated_against_impl": nrec,
             "samples": samples,
@@ -242,6 +243,8 @@ def replay(pid, path):
     _rk = obj.get("replay", {}).get("kind") if isinstance(obj.get("replay"), dict) else None
     if _rk == "connector-trace":
         return __import__("x_connector").replay(pid, obj)
+    if _rk == "upgrade-scenario":
+        return __import__("x_upgrade").replay(pid, obj)
     if _rk == "body-ops":
         return __import__("x_body").replay(pid, obj)
     if _rk == "tcpcall-row":
